@@ -38,7 +38,7 @@ def dev(c, op):
         defamt = "some" if emb else "zero"
     else:
         defamt = "some" if op["m"] in ("deposit", "sendVoteProof", "addStake") else "zero"
-    return (op["arg"] != "valid") + (op["amt"] != defamt) + (op["gas"] != "enough") + (op["who"] != defwho) + (1 if op["pair"] else 0)
+    return (op["arg"] != "valid") + (op["amt"] != defamt) + (op["gas"] != "enough") + (op["who"] != defwho) + (op["pair"] != "no")
 
 
 def sample_cases(exports, rnd, budget):
@@ -47,7 +47,7 @@ def sample_cases(exports, rnd, budget):
     keep = []
     for e in exports:
         last = e["path"][-1]
-        if last["m"] in ("fund", "wait") or dev(e["c"], last) == 0:
+        if last["m"] in ("fund", "wait", "longwait") or dev(e["c"], last) == 0:
             keep.append(e)
         else:
             groups[(e["c"], e["w"], json.dumps(e["path"][:-1]))].append(e)
@@ -310,7 +310,7 @@ def main(ctx):
         "exhaustive": False,
         "rule": "envelope model explored exhaustively within bounds; every operation class (method x argument class x pay-amount class x "
                 "gas class x caller role x pair, <= %d deviations from the well-formed default) attempted in every lifecycle state of the 5 "
-                "embedded and 4 bundled wasm contracts: %d sampled transitions (all well-formed ones) + %d random walks of 24 operations, "
+                "embedded and 5 bundled wasm contracts: %d sampled transitions (all well-formed ones) + %d random walks of 24 operations, "
                 "each executed on a real chain, one contract transaction per block (two for pair operations)"
                 % (2 if quick else 3, len(cases), len(walks)),
     }
